@@ -174,6 +174,7 @@ static bool explore_unit(const Args& a, size_t cap, int mode, const Phase& ph, u
                 if (r.grew) ++C["distinct_nontrivial"];
                 if (!r.fail) { std::string k = "outcome " + OPS[h.op[h.n - 1]].kind + ":" + r.last_outcome(); if (k.size() < 55) ++C[k.c_str()]; }
             }
+            if (r.left_domain) { ++C["left_open_purge_with_non_entity_top_level_item"]; return; }
             if (r.fail) { report(r.key, r.detail, hist_spec(cap, mode, h)); return; }
             if (visit(r.h1, r.h2)) {
                 if (counted) ++C["states"];
@@ -275,6 +276,7 @@ static void run_pcase(const PCase& p) {
     auto ops = pcase_ops(p);
     Res r = run_ops(PCFG_CAP[p.cfg], PCFG_MODE[p.cfg], ops, true);
     ++C["evaluations"]; ++C["purge_cases"];
+    if (r.left_domain) { ++C["left_open_purge_with_non_entity_top_level_item"]; return; }
     if (r.fail) { report(r.key, r.detail, pspec(p)); return; }
     if (!strcmp(r.last_outcome(), "moved")) { ++C["distinct_nontrivial"]; ++C["purge_cases_that_moved_items"]; }
 }
